@@ -28,7 +28,7 @@ func init() { harness.Register(check{}) }
 func (check) ID() string    { return "C04" }
 func (check) Level() string { return "fault_enumeration" }
 func (check) Rule() string {
-	return "fault enumeration: capability subsets over the flags that change what start-up/shutdown emit (exhaustive 2^9 in quick together with sampled options; all 2^17 in thorough) x options (DisableMouse, DisableKittyKeyboard, CSIuBitMask, ReportKeyboardEvents) x session scripts (frames with cursor shown in some style, pointer-shape and app-id changes, 0-3 Suspend/Resume cycles) x shutdown point (every step boundary) and trigger: Close, double Close, Close from another goroutine, a termination signal (SIGTERM/SIGINT delivered to the process) also during an input burst and with a slow application, and a panic injected into the input goroutine through a tag-guarded hook at a position of an input burst (the process dies by design: the parent judges the terminal state recorded in the journal). The reference terminal's full mode table before New must equal the table after shutdown. A case is (caps, options, script, shutdown point, trigger); distinct = hash of it"
+	return "fault enumeration: capability subsets over the flags that change what start-up/shutdown emit (exhaustive 2^9 in quick together with sampled options; in thorough 6 scripts per subset plus 2560 random masks over all 17 flags) x options (DisableMouse, DisableKittyKeyboard, CSIuBitMask, ReportKeyboardEvents) x session scripts (frames with cursor shown in some style, pointer-shape and app-id changes, 0-3 Suspend/Resume cycles) x shutdown point (every step boundary) and trigger: Close, double Close, Close from another goroutine, a termination signal (SIGTERM/SIGINT delivered to the process) also during an input burst and with a slow application, and a panic injected into the input goroutine through a tag-guarded hook at a position of an input burst (the process dies by design: the parent judges the terminal state recorded in the journal). The reference terminal's full mode table before New must equal the table after shutdown. A case is (caps, options, script, shutdown point, trigger); distinct = hash of it"
 }
 func (check) Assumptions() []string {
 	return []string{
@@ -419,14 +419,22 @@ func (c check) Run(w *harness.W, b harness.Batch) {
 		r := gen.New(b.Seed)
 		subs := 1 << len(flagBits)
 		if w.Tier == "thorough" {
-			for m := 0; m < 1<<17; m++ {
-				if m%s.Of != s.Part {
-					continue
+			// every subset of the flags that change what is emitted, with 6
+			// different scripts/triggers each, then random masks over all 17 flags
+			for rep := 0; rep < 6; rep++ {
+				for sub := 0; sub < subs; sub++ {
+					if sub%s.Of != s.Part {
+						continue
+					}
+					runCase(w, genCase(r, uint32(sub)))
 				}
+			}
+			for i := 0; i < 160; i++ {
 				cc := genCase(r, 0)
-				cc.Caps = uint32(m)
+				cc.Caps = uint32(r.Intn(1 << 17))
 				runCase(w, cc)
 			}
+			w.Count("exhaustive_spaces", 1)
 			return
 		}
 		for sub := 0; sub < subs; sub++ {
